@@ -82,6 +82,10 @@ def jobs(tier):
                            ("samename2", ["intact", "trunc"]), ("samename2", ["intact", "flip"])):
             out.append(("v%d.%s.P16384.%s.siblings" % (version, shape, "-".join(k[0] for k in dmg)), "job_recheck",
                         dict(prop="C04", version=version, shape=shape, P=16384, K=1, dmg=dmg, source="ref")))
+    for version in (1, 2, 3):       # legal names that contain '..'
+        for dmg in (["flip", "intact", "intact"], ["intact", "missing", "intact"], ["intact", "intact", "trunc"]):
+            out.append(("v%d.nested3~dotdot.P16384.%s" % (version, "-".join(k[0] for k in dmg)), "job_recheck",
+                        dict(prop="C04", version=version, shape="nested3~dotdot", P=16384, K=1, dmg=dmg, source="ref")))
     out.extend(rk.matrix_rows(tier, "C04"))
     # a long-lived Checker: verified while intact, content damaged afterwards, verified again on the same object
     for version in (1, 2, 3):
